@@ -4,8 +4,9 @@
 (* record [id, kind "doc"|"elem", g, b] written by harness/c15lib.py is    *)
 (* judged by the property layer of AcceptProp.tla -- the same operators    *)
 (* AcceptMC checks the consumer model against.  Rejected triples are       *)
-(* <<id, clause, detail>>; detail = the message class of the document or   *)
-(* the tag (and container tag) of the element: reporting only.             *)
+(* <<id, clause, detail>>; detail = the message class of the document and  *)
+(* the place it points at, or the tag (and container tag) of the element:  *)
+(* reporting only (it names the class of failing input).                   *)
 (***************************************************************************)
 EXTENDS AcceptProp, Json, IOUtils, SequencesExt, TLC
 
@@ -14,14 +15,22 @@ Idx == 1..Len(Obs)
 
 Failing(r) == IF r.kind = "doc" THEN LET cl == DocClauses(r.g, r.b) IN {c \in DocNames : ~cl[c]}
               ELSE LET cl == ElemClauses(r.g, r.b) IN {c \in ElemNames : ~cl[c]}
-Detail(r) == IF r.kind = "doc" THEN r.b.msgclass
-             ELSE IF r.g.level = "top" THEN r.g.tag ELSE r.g.ownerTag \o "/" \o r.g.tag
-Rejected == UNION { {<<Obs[i].id, c, Detail(Obs[i])>> : c \in Failing(Obs[i])} : i \in Idx }
+\* reporting only: names the class of failing input a rejected record belongs to (known_findings.json matches on it)
+Where(r) == IF r.g.level = "top" THEN r.g.tag ELSE r.g.ownerTag \o "/" \o r.g.tag
+Detail(r, c) ==
+    IF r.kind = "doc" THEN (IF r.b.where = "" THEN r.b.msgclass ELSE r.b.msgclass \o " @ " \o r.b.where)
+    ELSE CASE c = "ParamOptional" -> Where(r) \o (IF OnlyInoutAllowNone(r.g, r.b) THEN " # inout nullable allow-none" ELSE "")
+           [] c = "ParamCallerAllocates" -> Where(r) \o (IF OnlyInoutCallerAllocates(r.g, r.b) THEN " # inout caller-allocates" ELSE "")
+           [] c = "SignalWhen" -> Where(r) \o " # when=" \o r.g.fl.when
+           [] c = "FieldFlags" -> Where(r) \o (IF The(r.g, r.b).fl.writable = Writable(r.g.fl.writable) THEN " # readable=" \o r.g.fl.readable ELSE "")
+           [] c \in {"VFuncInvoker", "PropAccessors", "Accessor"} -> Where(r) \o (IF TargetAbsent(r.g, r.b, c) THEN " # target absent" ELSE "")
+           [] OTHER -> Where(r)
+Rejected == UNION { {<<Obs[i].id, c, Detail(Obs[i], c)>> : c \in Failing(Obs[i])} : i \in Idx }
 
 DocIdx == {i \in Idx : Obs[i].kind = "doc"}
 ElemIdx == {i \in Idx : Obs[i].kind = "elem"}
 Exercised == [c \in DocNames \cup ElemNames |->
-                 IF c \in DocNames THEN Cardinality(IF c \in {"Validates", "Identity"} THEN {i \in DocIdx : Obs[i].b.rc = 0} ELSE DocIdx)
+                 IF c \in DocNames THEN Cardinality(IF c \in {"Validates", "Identity", "Quiet"} THEN {i \in DocIdx : Obs[i].b.rc = 0} ELSE DocIdx)
                  ELSE Cardinality({i \in ElemIdx : ElemAnte(Obs[i].g, Obs[i].b, c)})]
 
 ASSUME JsonSerialize(IOEnv.VERDICT_FILE, [n |-> Len(Obs), rejected |-> SetToSeq(Rejected), exercised |-> Exercised])
